@@ -87,7 +87,7 @@ T = {
     ),
     "C09": dict(
         technique=_AI + ": path rewrites interpreted on all 20 letters, 400 ordered pairs and (thorough) 8000 triples with symbolic arguments, compared component-wise as polynomial identities with a reference interpreter of SVG 1.1 section 8.3",
-        explanation="explicit_lines, expand_shorthand, absolute, relative, arcs_to_cubics (arc callback stubbed: C12), move, subpath splitting and the shape builders (rect with "
+        explanation="explicit_lines, expand_shorthand, absolute, relative, arcs_to_cubics (arc_to_cubic replaced by a stub that follows its dispatch contract - nothing for coincident end points, a straight segment for a zero radius, curves otherwise - and asks those questions through the evaluator: C12), move, subpath splitting and the shape builders (rect with "
                     "rx/ry defaulting and clamping on concrete radii, circle, ellipse, line, polygon, polyline read back through the grammar) each describe the same curve as their input and "
                     "deliver the letter set they promise; as_cmd_seq hands Skia the source curve in absolute M L C Q Z (shorthands resolved against the source's previous segment, "
                     "arcs replaced by their cubics); coordinate index tables equal the specification; round_floats rounds every number and nothing else; on near-start snapping "
@@ -127,7 +127,8 @@ T = {
         technique=_AI + ": svg_pathops interpreted against an abstract skia-pathops whose paths carry a region term; result compared with the requested set operation in a normal form of the region algebra",
         explanation="Commands build the same-named engine verbs with arguments in order and read back as the same letters; fill-rule names map to the same-named fill types; for union, "
                     "intersection, difference (and remove_overlaps, path_area) the result region is the requested operation over all operands, each under its own rule, finally "
-                    "simplified with winding fixed (valid under nonzero); empty operand lists handled; an engine failure propagates (no handler swallows it); shape-level wrappers pair "
+                    "simplified with winding fixed (valid under nonzero); an early answer without the engine is accepted only where the path has learned that the region is empty "
+                    "(area 0 of a fix_winding result; area 0 of raw contours says nothing: opposite windings cancel); empty operand lists handled; an engine failure propagates (no handler swallows it); shape-level wrappers pair "
                     "operands and rules positionally.",
         not_decided="Skia's computation of the operation",
         assumptions=["skia-pathops computes the set operation for the fill types it is given; simplify(fix_winding=True) makes nonzero and evenodd interiors coincide"],
@@ -152,7 +153,7 @@ T = {
         technique="effect lint over resolved calls (forbidden sources, positive control) + " + _AI + ": relational - conversion interpreted under two set iteration orders and after different conversion histories",
         explanation="No environment/time/identity/randomness API anywhere in the package; the schematic document converted with every set (and the module tables built from sets) "
                     "iterated in two orders gives the same document; converted after other documents were converted (memo tables, class attributes, counters carried over) it gives the "
-                    "same document and the same generated ids.",
+                    "same document and the same generated ids; likewise a document whose svg content is prefixed under a foreign default namespace, alone and after an ordinary document.",
         not_decided="determinism of lxml and skia-pathops themselves",
         assumptions=["dict / lxml attribute iteration order is insertion order"],
     ),
@@ -165,14 +166,16 @@ T = {
                     "mutual, through groups, chains running into a cycle further down, both document orders, SVG 2 href, blanks and line breaks in the reference) and dangling "
                     "references are interpreted: each ends in an exception or a finite document, an unbounded expansion shows as an exhausted step budget. Recursion is inventoried only: "
                     "its depth is bounded by the interpreter (RecursionError is an exception). No regular expression has an ambiguous iteration (exponential backtracking); one XML "
-                    "entry with resolve_entities=False; topicosvg raises when the gate reports violations.",
+                    "entry whose parser does not resolve entities, interpreted on literal documents with and without a DTD subset (internal, external general, external parameter "
+                    "entities, declarations split over lines): the option may not depend on the text in a way that lets an external entity through; topicosvg raises when the gate reports violations.",
         not_decided="running time and memory proportional to the expanded document",
         assumptions=["Python's recursion limit turns unbounded recursion into RecursionError (an exception, allowed)"],
     ),
     "C18": dict(
         technique=_AI + ": might_paint on the full product of paint attributes x geometry classes x symbolic area vs the reference predicate; pruning stages interpreted on schematic documents",
         explanation="might_paint equals 'visible stroke, or visible fill with area > 0' on display x fill x stroke x three opacities x stroke-width x geometry class x area (comparison with "
-                    "exact zero); remove_unpainted_shapes deletes exactly the negative verdicts; remove_empty_subpaths judges each contour with the paint of the shape it belongs to; "
+                    "exact zero); remove_unpainted_shapes deletes exactly the negative verdicts (the document has the same outline under two fill rules - by style, by attribute, inherited - in both "
+                    "orders, with an area that depends on the rule: a verdict may not leak from one shape to the next); remove_empty_subpaths judges each contour with the paint of the shape it belongs to; "
                     "path_area builds under the caller's rule and reads the area of the simplified path.",
         not_decided="Skia's area for slivers below its resolution",
         assumptions=["Skia's area of the simplified path is > 0 exactly when the fill region is non-empty"],
@@ -180,7 +183,7 @@ T = {
     "C19": dict(
         technique=_AI + ": bounding boxes and clip_to_viewbox interpreted against the abstract engine; Rect algebra with opaque min/max; region-algebra criterion C n B = V n B",
         explanation="bounding_box asks the engine for the tight bounds of the shape's current commands on every call (also after an in-place edit) and converts to (x, y, w, h); the "
-                    "document box is the union; Rect.intersection / union are the interval formulas, None exactly when empty; clip_to_viewbox on 11 shape positions x 2 view boxes: "
+                    "document box is the union; Rect.intersection / union are the interval formulas, None exactly when empty; clip_to_viewbox on 14 shape positions (inside, outside, over an edge, a corner, two opposite edges, all four edges) x 2 view boxes, engine facts such as convexity explored both ways: "
                     "the result region within the box equals the source region within the box, outside shapes are dropped, inside ones untouched, emptied groups pruned; the CLI "
                     "applies it only under its flag, after the conversion.",
         not_decided="Skia's bounds and intersection being exact",
